@@ -139,6 +139,8 @@ pub fn op_short(op: &Op) -> &'static str {
         Op::Deliver { .. } => "deliver",
         Op::Restart => "restart",
         Op::MediaDownload { .. } => "media",
+        Op::SetGroupImage { .. } => "setimage",
+        Op::GroupImageDownload { .. } => "gimage",
         Op::Hostile(_) => "hostile",
         Op::Nop => "nop",
     }
